@@ -65,7 +65,7 @@ def SB(x):
 
 
 def show_tree(d):
-    return "{" + ",".join(k + ":" + (show_tree(v) if isinstance(v, dict) else bytes(v).hex().upper())
+    return "{" + ",".join(k + ":" + (show_tree(v) if hasattr(v, "items") else bytes(v).hex().upper())
                           for k, v in d.items()) + "}"
 
 
@@ -74,7 +74,8 @@ def tree_tokens(t):
     out = []
 
     def val(v):
-        if isinstance(v, dict):
+        import collections.abc
+        if isinstance(v, collections.abc.Mapping):
             out.append("D"); out.append(str(len(v)))
             for k, x in v.items():
                 out.append(S(k)); val(x)
